@@ -394,7 +394,7 @@ def check_link(ctx):
     PL = 'self._physical_layer'
     CAN = PL + '.can_send_skp'
     drv = ll.drivers(CAN, exact=True)
-    up = [a for a in drv if not q.is_zero(a.rhs)]
+    up = q.raises(ll, CAN)                # `can_send_skp.eq(cond)` and `with m.If(cond): can_send_skp.eq(1)` in one form
     ctx.ob('C33.skp-rate', 'USB3LinkLayer.can_send_skp.raised', len(up) >= 1 and all(q.is_one(a.rhs) for a in up),
            up[0].loc if up else None, 'the link layer must offer idle cycles to the SKP inserter (can_send_skp <- 1): %s' % [q.fmt(a) for a in drv])
     ctx.need(up, 'can_send_skp raise site in USB3LinkLayer')
